@@ -436,11 +436,11 @@ class ConcBuilder:
         self.objects[name] = o
         return o
 
-    def obj(self, name, cls, sealed=True, **fields):
-        if cls.startswith('iface:'):
-            o = Stub(name, cls, self.source, self.reg, fields)
+    def obj(self, _name, _cls, sealed=True, **fields):
+        if _cls.startswith('iface:'):
+            o = Stub(_name, _cls, self.source, self.reg, fields)
         else:
-            rc = real_class(cls)
+            rc = real_class(_cls)
             if isinstance(rc, type) and issubclass(rc, BaseException):
                 o = rc('drawn')
             else:
@@ -450,9 +450,9 @@ class ConcBuilder:
             # methods that the contracts treat through an interface contract are stubbed on this instance
             for qual, cons in self.reg.contracts.items():
                 for c in cons:
-                    if getattr(c, 'iface', False) and qual.rsplit('.', 1)[0] == cls:
+                    if getattr(c, 'iface', False) and qual.rsplit('.', 1)[0] == _cls:
                         object.__setattr__(o, qual.rsplit('.', 1)[1], _stub_method(c, o, self.source, qual))
-        self.objects[name] = o
+        self.objects[_name] = o
         return o
 
     def list(self, items):
